@@ -1,13 +1,13 @@
 ------------------------------ MODULE MC_Combos ------------------------------
 (* C19: the full cross product (70 metrics + 28 diagrams) x (19 dimensions +    *)
 (* default) x 8 output types, plus the option variants on a reduced set of       *)
-(* dimensions and types.  One state per combination.                            *)
+(* dimensions and types (plot, csv, impact).  One state per combination.                            *)
 EXTENDS Combos, TLC, Json
 CONSTANT Part          \* "cross" | "variants"
 VARIABLES c, phase
 vars == <<c, phase>>
 Cross == {[m |-> m, x |-> x, t |-> t, v |-> "plain"] : m \in AllNames, x \in AxisNames, t \in TypeNames}
-Vars == UNION {{[m |-> m, x |-> x, t |-> t, v |-> v] : x \in {"(default)", "leadtime", "threshold", "no", "location"}, t \in {"plot", "csv"},
+Vars == UNION {{[m |-> m, x |-> x, t |-> t, v |-> v] : x \in {"(default)", "leadtime", "threshold", "no", "location"}, t \in {"plot", "csv", "impact"},
                  v \in Variants(m) \ {"plain"}} : m \in AllNames}
 Init == c \in (IF Part = "cross" THEN Cross ELSE Vars) /\ phase = "combo"
 Evaluate == phase = "combo" /\ phase' = "emitted" /\ c' = c
